@@ -168,6 +168,16 @@ func c09Check(c C09Case, cx *h.Ctx) *h.Failure {
 	if ok != ok2 || (ok && math.Abs(d-d2) > tau) {
 		return h.Failf("distance/asymmetric", "Distance(A,B)=%v,%v but Distance(B,A)=%v,%v%s", d, ok, d2, ok2, desc())
 	}
+	// Intersects and Distance are functions of the XY point sets: the same operands carrying Z / M / ZM payload give the
+	// same answers
+	{
+		lctA, lctB := 1+len(c.A.String())%3, 1+len(c.B.String())%3
+		AL, BL := c16TagWith(forceCT(c.A, lctA), true).ToGeom(), c16TagWith(forceCT(c.B, lctB), false).ToGeom()
+		dl, okl := geom.Distance(AL, BL)
+		if il := geom.Intersects(AL, BL); il != gotI || okl != ok || (ok && dl != d) {
+			return h.Failf("distance/zm-dependent", "with %s / %s payload Intersects=%v Distance=%v,%v; without payload %v and %v,%v%s", gm.CTName(lctA), gm.CTName(lctB), il, dl, okl, gotI, d, ok, desc())
+		}
+	}
 	wantOK := !ea.IsEmpty() && !eb.IsEmpty()
 	if ok != wantOK {
 		return h.Failf("distance/defined", "Distance(A,B) defined=%v, want %v (an operand is empty: %v/%v)%s", ok, wantOK, ea.IsEmpty(), eb.IsEmpty(), desc())
